@@ -272,6 +272,9 @@ def apply_electric_inputs(sysm, objs, plant, inp):
             else:
                 o.load_sharing_mode = arr_of([float(x) for x in ci["lsm"]], float)
             if k in ("PtiPto", "Storage"):
+                # a unit that balances over the whole series needs no input: inp["unset_balancing_input"] leaves it as constructed
+                if inp.get("unset_balancing_input") and not any(ci["lsm"]) and not any(ci["pin"]):
+                    continue
                 arr = arr_of([float(x) for x in ci["pin"]], float)
                 if ci.get("set") == "from_output":
                     o.set_power_input_from_output(arr)
